@@ -43,3 +43,9 @@ claim("C20",
       "Decides two structural sources of non-determinism and cross-VM leakage in the interpreter core (lexer, parser, token, node, data, runtime, std/php, std/serializer/json): (1) every range over a Go map is order-insensitive by shape, has its result sorted, or is a listed finding; (2) every package-level variable written outside init is reviewed (reset per VM, write-once, host configuration) or a listed finding. Byte-identical output as a whole, time and randomness sources, and the ~40 map ranges in the wider stdlib are not decided.",
       "Go's map iteration order is unspecified (language spec); order-insensitive shapes are enumerated in the evidence; calls inside a classified body are assumed not to print or evaluate script code unless they are the known entry points",
       "DESIGN.md §2 C20")
+
+claim("C09",
+      "per-path counting of channel operations and closed-flag typestate in Channel's methods; who-may-touch check of the chan field; synchronisation check of the flag",
+      "Decides the wrapper discipline that lets the single Go channel's guarantees (exactly once, per-sender FIFO) carry over: one send per successful Send and none on failure, one receive per Receive, the chan field touched only by Channel's methods, closed tested before send/close with a failure result on the closed arm, two-result receive; and reports the flag's missing synchronisation and the check-then-act send/close as findings. Delivery under all interleavings is the Go runtime's guarantee and is not re-proved; deadlock freedom is not decided.",
+      "Go channel semantics are trusted; known findings C09-SYNC/C09-SAFE are genuine races witnessed with go test -race",
+      "DESIGN.md §2 C09")
